@@ -10,6 +10,8 @@ NODE_ALPHABETS = [
 ]
 
 R_VALUES = [1, 2, 10, 47, 100.0, 1e3, 0.5, 3.3, 220]
+# values with many significant digits / extreme magnitudes / integers beyond 2**53 (loaders must pass them on exactly)
+FINE_VALUES = [123456789.12345679, 0.1234567890123456, 1e-13, 7.000000000000001, 9007199254740993, 4.7e15, 3.0000001e-7, 2 ** 0.5]
 C_VALUES = [1e-3, 1e-6, 4.7e-4, 1.0]
 L_VALUES = [1e-3, 0.1, 1.0, 2.2e-2]
 V_VALUES = [1, 5, 12, -3, 0.5, 230]
@@ -19,6 +21,9 @@ PHI_VALUES = [0, 0.5, -1.0, 1.5707963267948966, 3.0]
 
 
 def cx(rng):
+    if rng.random() < 0.08:
+        # a tiny part next to a large one, many digits
+        return rng.choice([complex(1e22, 1e-9), complex(3.0000001e-7, 123456789.12345679), complex(-0.0, 2.0), complex(0.1 + 0.2, -1e-300)])
     re = rng.choice([0, 1, 2.5, -1, 10, 0.1])
     im = rng.choice([0, 1, -2, 0.5, 7, -0.25])
     if re == 0 and im == 0:
@@ -338,7 +343,7 @@ def gen_net_description(rng, degenerate=False):
         a, b = (nodes[0], nodes[1]) if i == 0 else rng.sample(nodes, 2)
         e = {"type": k, "id": names[i], "N1": a, "N2": b}
         if k == "resistor":
-            e["R"] = rng.choice(R_VALUES + [0, -5, 1e-12, 7, 2.0])
+            e["R"] = rng.choice(R_VALUES + [0, -5, 1e-12, 7, 2.0] + FINE_VALUES)
         elif k == "conductor":
             e["G"] = rng.choice([1 / rng.choice(R_VALUES), 0, -0.5, 3])
         elif k == "impedance":
@@ -360,7 +365,7 @@ def gen_net_description(rng, degenerate=False):
             if rng.random() < 0.3:
                 e["Z"] = rng.choice([0, 10, 0.5, 1e3])                  # optional raw impedance
         elif k == "real_voltage_source":
-            e["V"] = rng.choice(V_VALUES + [0, -1e-9]); e["Z"] = rng.choice(R_VALUES + [0])
+            e["V"] = rng.choice(V_VALUES + [0, -1e-9] + FINE_VALUES); e["Z"] = rng.choice(R_VALUES + [0] + FINE_VALUES)
         keys = list(e.keys())
         rng.shuffle(keys)                       # key order of an entry is not significant
         ents.append({k2: e[k2] for k2 in keys})
